@@ -215,6 +215,56 @@ def shared_family(run, rng, n):
     return len(progs)
 
 
+def size_limit_family(run):
+    """Implementation only: the size an array may reach (d_array::max_size(), read from the source) at set and resize. A set at index i
+    needs i + 1 elements, a resize to n needs n: what fits is carried out (the array grows with nils, every name of it sees the growth),
+    what does not fit is rejected with a diagnostic and leaves the array as it was. The array is looked at in a second run on the same
+    instance (a rejected statement may end its script)."""
+    import re
+    try:
+        src = open(os.path.join(V.REPO, "src", "runtime", "d_array.h")).read()
+        mx = int(re.search(r"max_size\s*\(\s*\)\s*(?:const\s*)?(?:noexcept\s*)?\{\s*return\s+(\d+)", src).group(1))
+    except Exception as e:
+        run.violation("the array size limit d_array::max_size() is no longer readable from src/runtime/d_array.h", {"broken": "tie of the size-limit family: " + str(e)},
+                      found_input=False)
+        return 0
+    if not (1000 <= mx <= 20000000):
+        return 0        # a limit this family cannot allocate its way to (or a trivial one): nothing to say
+    hh = V.build_harness("h_vmhist", "plain")
+    base = mx - 10
+    cases = []
+    for need in (mx - 1, mx, mx + 1, mx + 2, 2 * mx):
+        cases.append(("set", need, "a set [%d, 7]" % (need - 1)))
+        cases.append(("resize", need, "a resize %d" % need))
+        cases.append(("set-alias", need, "b set [%d, 7]" % (need - 1)))
+    lines = []
+    for kind, need, op in cases:
+        r1 = "a = [1,2]; b = a; %s; diag_log \"after\"" % op
+        r2 = "diag_log [(count a) - %d, (count b) - %d, count a < 100, a select 1]" % (base, base)
+        lines.append("0;0;10000\ta:%s\ta:%s" % (V.hx(r1.encode()), V.hx(r2.encode())))
+    rc, out, err = V.run_lines_parallel([hh], lines, timeout=3000)
+    for (kind, need, op), ln, o in zip(cases, lines, out):
+        rep = {"kind": "size-limit:" + kind, "sqf": "a = [1,2]; b = a; %s;   then, in a second run:  [(count a) - %d, (count b) - %d, count a < 100, a select 1]" % (op, base, base),
+               "max_size": mx, "needs": need, "impl": o[:500]}
+        obs = o.split("\t")[0].split("|")
+        if len(obs) != 2 or o.startswith(("CRASH", "TIMEOUT", "OOM", "EXCEPTION", "EXIT", "BAD")):
+            run.violation("size-limit case did not come back: " + o[:100], rep)
+            continue
+        diag1 = [x for x in re.findall(r"(\d+):(\d+),", obs[0]) if int(x[0]) <= 2]
+        marks2 = re.findall(r"M<(\[.*?\])>", obs[1])
+        fits = need <= mx
+        want = "[%d,%d,false,2]" % (need - base, need - base) if fits else None
+        if not marks2:
+            run.violation("the array could not be looked at after `%s`: %s" % (op, obs[1][:100]), rep)
+        elif fits and (marks2[0] != want or diag1):
+            run.violation("`%s` needs %d elements, the limit is %d: it must be carried out (both names see %d elements, no diagnostic); observed %s, diagnostics %s"
+                          % (op, need, mx, need, marks2[0], diag1), rep)
+        elif not fits and (",true,2]" not in marks2[0] or not diag1):
+            run.violation("`%s` needs %d elements, the limit is %d: it must be rejected with a diagnostic and leave the array as it was (2 elements); "
+                          "observed [count a - %d, count b - %d, count a < 100, a select 1] = %s, diagnostics %s" % (op, need, mx, base, base, marks2[0], diag1), rep)
+    return len(cases)
+
+
 def main(replay=None):
     run = V.Run(PID, "proof")
     rng = run.rng
@@ -321,6 +371,7 @@ def main(replay=None):
     kinds["rows-keep-identity"] = n_rows
     kinds["fresh-results"] = fresh_family(run, rng, 1500 if thorough else 200)
     kinds["shared-handover"] = shared_family(run, rng, 1200 if thorough else 160)
+    kinds["size-limit"] = size_limit_family(run)
 
     for p in problems:
         run.violation("proof obligation not discharged: " + p, {"broken": p, "theorems": run.cov["theorems"]}, found_input=False)
